@@ -439,10 +439,13 @@ func runCycExp(t *rapid.T, c *cyclo, name string) {
 	var k *big.Int
 	var kc string
 	extra := []string{}
-	if uniP(t, 1, "ksrc") == 0 {
+	if src := uniP(t, 4, "ksrc"); src <= 1 {
 		var g1, g2 string
 		k, kc, g1, g2 = c.glvExponent(t, "k")
 		extra = append(extra, "glv:"+glvCoarse(g1)+"_"+glvCoarse(g2), "glv_len:"+g1+"_"+g2)
+	} else if src == 2 {
+		k, kc = wordExponent(t, "k")
+		extra = kwClasses(kc)
 	} else {
 		k, kc = gen.Int(t, c.f.curve.R, lv.expBits(), "k")
 	}
@@ -642,6 +645,12 @@ func TestC06_GLVExp(t *testing.T) {
 				xv = c.sx.Conj(xv)
 			}
 			k, kc, g1, g2 := c.glvExponent(t, "k")
+			classes := []string{"glv:" + glvCoarse(g1) + "_" + glvCoarse(g2), "glv_len:" + g1 + "_" + g2}
+			if uniP(t, 3, "ksrc") == 0 {
+				k, kc = wordExponent(t, "kw")
+				g1, g2 = "word-structured", "-"
+				classes = kwClasses(kc)
+			}
 			want := ref.Exp(K, xv, k)
 			// ExpGLV always, one of the other two as well
 			ms := []string{"ExpGLV", methods[1+uni(t, len(methods)-1, "other")]}
@@ -651,7 +660,7 @@ func TestC06_GLVExp(t *testing.T) {
 				reg.M(z, m, x, k)
 				lv.check(t, fmt.Sprintf("%s(x, k) for x in GT, k = k1 + k2*lambda with |k1| %s, |k2| %s (%s), k=%s, x=%s", m, g1, g2, kc, k, ref.String(xv)), z, want)
 			}
-			rep.Case(test, c.f.name+" "+key(xv, k), true, "ExpGLV", ms[1], "k:"+kc, "glv:"+glvCoarse(g1)+"_"+glvCoarse(g2), "glv_len:"+g1+"_"+g2)
+			rep.Case(test, c.f.name+" "+key(xv, k), true, append([]string{"ExpGLV", ms[1], "k:" + kc}, classes...)...)
 		})
 	})
 }
